@@ -68,6 +68,9 @@ class World:
         # ... and calls of one external module with ONE value written three ways: equal calls, so equal parameters
         self.pool_mod = [m0, m1, X(NP(x=1)), X(NP(x=2)), h.R(r=1), h.R(r=2), ns.liba.Unit, ns.libb.Unit, X2(NP(x=1)),
                          X3(SP(a=1)), X3(SP(a=Prefixed(number=Decimal("1000"), prefix=Prefix(-3)))), X3(SP(a="1.0"))]
+        # (12, 13): generated modules - results of same-named generators defined in two python modules, called with equal parameters
+        from .. import genlib_a, genlib_b
+        self.pool_mod += [genlib_a.Unit(w=1), genlib_b.Unit(w=1)]
         g0 = h.generator(self._mk_simple("PoolG0")); g1 = h.generator(self._mk_simple("PoolG1"))
         self.pool_gen = [g0, g1]
         dt = {"int": int, "float": float, "str": str, "bool": bool, "oint": typing.Optional[int], "ofloat": typing.Optional[float],
@@ -528,7 +531,7 @@ def strategies():
             return st.one_of(pr, st.integers(-5, 5).map(lambda i: {"t": "int", "v": str(i)}), st.sampled_from(["w/5", "1e3", "x y"]).map(J("str")),
                              st.sampled_from(["lit", "1"]).map(lambda s: {"t": "lit", "v": s}))
         if code == "module":
-            return st.one_of(st.integers(0, 8), st.integers(0, 11), st.integers(9, 11)).map(J("module"))
+            return st.one_of(st.integers(0, 8), st.integers(0, 13), st.integers(9, 13), st.integers(12, 13)).map(J("module"))
         if code == "gen":
             return st.integers(0, 1).map(J("gen"))
         raise ValueError(code)
@@ -563,7 +566,7 @@ def strategies():
         if t == "nested":
             return {"t": "nested", "v": {"x": v["v"]["x"], "s": v["v"]["s"] + " "}}
         if t == "module":
-            return {"t": "module", "v": {0: 1, 1: 0, 2: 8, 8: 2, 3: 2, 4: 5, 5: 4, 6: 7, 7: 6, 9: 2, 10: 2, 11: 2}[v["v"]]}  # the most alike other pool entry
+            return {"t": "module", "v": {0: 1, 1: 0, 2: 8, 8: 2, 3: 2, 4: 5, 5: 4, 6: 7, 7: 6, 9: 2, 10: 2, 11: 2, 12: 13, 13: 12}[v["v"]]}  # the most alike other pool entry
         return None
 
     @st.composite
